@@ -183,6 +183,9 @@ static void park(std::atomic<int> *a) {
 }
 static void unpark(std::atomic<int> *a) { a->store(1, std::memory_order_release); futex_wake(a); }
 
+static thread_local int t_depth_change = 0;
+void sim_note_depth_change(int delta) { if (!t_depth_change) t_depth_change = delta; }
+int sim_take_depth_change() { int d = t_depth_change; t_depth_change = 0; return d; }
 int sim_self() { return t_self; }
 uint64_t sim_event() { return ++g_event; }
 int sim_lock_depth() { return t_self >= 0 ? T[t_self].depth : g_main_depth; }
